@@ -292,7 +292,7 @@ def archive_taint(ctx, bs):
         if not any(o.kind == 'call' and o.key == 'archive::Archive::load' for o in r.origins(ct['args'][0], mut_calls=True)) and \
            not any(o.kind == 'comb' for o in tgt):
             continue
-        cl = [o for o in r.origins(ct['args'][1]) if o.kind == 'agg' and str(o.key).startswith(RUN + '::{closure')]
+        cl = [o for o in r.origins(ct['args'][1]) if o.kind == 'agg' and '::{closure' in str(o.key) and bs.F.body(str(o.key)) is not None]
         for c in cl:
             caps = set()
             for bi in r.cfg.reachable():
